@@ -672,6 +672,7 @@ package kafka
 //@   modifies r.$rpos
 //@   ensures racct(r, $1, result1)
 //@   ensures result2 == nil ==> result1 == $1 - max($2, 0) && len(result0) == max($2, 0)
+//@   ensures $2 <= 0 ==> result2 == nil && result1 == $1 && isnil(result0)
 //@   ensures !spec.iskafka(result2)
 //@ func readNewString
 //@   requires 0 <= sz && sz <= 0xffffffffffff
@@ -679,6 +680,7 @@ package kafka
 //@   modifies r.$rpos
 //@   ensures racct(r, sz, result1)
 //@   ensures result2 == nil ==> result1 == sz - max(n, 0)
+//@   ensures n <= 0 ==> result2 == nil && result1 == sz && len(result0) == 0
 //@   ensures !spec.iskafka(result2)
 
 // A readBytesFunc consumes the n bytes of a key or value (n < 0 encodes null: nothing to consume) out of the budget sz.
@@ -688,6 +690,7 @@ package kafka
 //@   modifies $0.$rpos
 //@   ensures racct($0, $1, result0)
 //@   ensures result1 == nil ==> result0 == $1 - max($2, 0)
+//@   ensures $2 < 0 ==> result1 == nil && result0 == $1
 //@   ensures !spec.iskafka(result1)
 //@ func readStringWith
 //@   requires 0 <= sz && sz <= 0xffffffffffff
